@@ -891,28 +891,75 @@ def unroll_literal_loops(func_node: ast.AST, max_items: int = 8) -> ast.AST:
     return ast.fix_missing_locations(res)
 
 
-def inline_procedures(func_node: ast.FunctionDef, callees: typing.Dict[str, ast.FunctionDef], suffix: str = "__inl") -> ast.FunctionDef:
+def _without_early_returns(stmts: typing.List[ast.stmt]) -> typing.Optional[typing.List[ast.stmt]]:
+    """a procedure body with bare `return`s turned into structure: `if c: A; return` + rest  ->  `if c: A else: rest`; a trailing
+    `return` is dropped; None when a return sits where this cannot be done (inside a loop / try)"""
+    out: typing.List[ast.stmt] = []
+    for i, st in enumerate(stmts):
+        if isinstance(st, ast.Return):
+            return out if st.value is None else None
+        has_ret = any(isinstance(n, ast.Return) for n in ast.walk(st))
+        if not has_ret:
+            out.append(st)
+            continue
+        if isinstance(st, ast.If):
+            a, b = _without_early_returns(st.body), _without_early_returns(st.orelse)
+            if a is None or b is None:
+                return None
+            ends_a = bool(st.body) and isinstance(st.body[-1], ast.Return)
+            ends_b = bool(st.orelse) and isinstance(st.orelse[-1], ast.Return)
+            rest = _without_early_returns(stmts[i + 1:])
+            if rest is None:
+                return None
+            if ends_a and not ends_b:
+                return out + [ast.If(test=st.test, body=a or [ast.Pass()], orelse=b + rest)]
+            if ends_b and not ends_a:
+                return out + [ast.If(test=st.test, body=a + rest if (a + rest) else [ast.Pass()], orelse=b)]
+            if ends_a and ends_b:
+                return out + [ast.If(test=st.test, body=a or [ast.Pass()], orelse=b)]
+            return None
+        if isinstance(st, (ast.With, ast.AsyncWith)) and i == len(stmts) - 1:
+            inner = _without_early_returns(st.body)
+            if inner is None:
+                return None
+            st2 = copy.copy(st)
+            st2.body = inner or [ast.Pass()]
+            return out + [st2]
+        return None
+    return out
+
+
+def inline_procedures(func_node: ast.FunctionDef, callees: typing.Dict[str, ast.FunctionDef], suffix: str = "__inl",
+                      methods: typing.Optional[typing.Dict[str, ast.FunctionDef]] = None) -> ast.FunctionDef:
     """Statements `helper(a, b)` that call a private module-level procedure (no value returned, no generator, parameters never
     re-bound) are replaced by the procedure's body, parameters spelled as the argument expressions and the procedure's locals renamed
     apart - the code the call abbreviates.  Returns a deep copy; anything that does not fit stays a call."""
     fn = copy.deepcopy(func_node)
 
+    def hparams(h: ast.FunctionDef, call: ast.Call) -> typing.List[ast.arg]:
+        ps = list(h.args.args)
+        if isinstance(call.func, ast.Attribute) and ps and not any(isinstance(d, ast.Name) and d.id == "staticmethod" for d in h.decorator_list):
+            ps = ps[1:]          # self / cls is the receiver
+        return ps
+
     def fits(h: ast.FunctionDef, call: ast.Call) -> bool:
         a = h.args
-        if a.vararg or a.kwarg or a.kwonlyargs or a.posonlyargs or call.keywords or len(call.args) != len(a.args) or any(isinstance(x, ast.Starred) for x in call.args):
+        if a.vararg or a.kwarg or a.kwonlyargs or a.posonlyargs or call.keywords or len(call.args) != len(hparams(h, call)) or any(isinstance(x, ast.Starred) for x in call.args):
             return False
         params = {x.arg for x in a.args}
         for n in ast.walk(h):
             if isinstance(n, (ast.Yield, ast.YieldFrom, ast.FunctionDef, ast.AsyncFunctionDef, ast.Lambda, ast.ClassDef, ast.Global, ast.Nonlocal)) and n is not h:
                 return False
-            if isinstance(n, ast.Return) and (n.value is not None or n is not h.body[-1]):
+            if isinstance(n, ast.Return) and n.value is not None:
                 return False
             if isinstance(n, ast.Name) and isinstance(n.ctx, (ast.Store, ast.Del)) and n.id in params:
                 return False
-        return True
+        return _without_early_returns([st for st in h.body if not (isinstance(st, ast.Expr) and isinstance(st.value, ast.Constant))]) is not None
 
     def expand(h: ast.FunctionDef, call: ast.Call) -> typing.List[ast.stmt]:
-        env = {p_.arg: a_ for p_, a_ in zip(h.args.args, call.args)}
+        env = {p_.arg: a_ for p_, a_ in zip(hparams(h, call), call.args)}
+        if isinstance(call.func, ast.Attribute) and len(hparams(h, call)) < len(h.args.args):
+            env[h.args.args[0].arg] = call.func.value      # the receiver stands for self / cls
         local = {n.id for n in ast.walk(h) if isinstance(n, ast.Name) and isinstance(n.ctx, ast.Store)}
 
         class R(ast.NodeTransformer):
@@ -923,8 +970,10 @@ def inline_procedures(func_node: ast.FunctionDef, callees: typing.Dict[str, ast.
                     return ast.copy_location(ast.Name(id=node.id + suffix, ctx=node.ctx), node)
                 return node
 
-        body = [st for st in copy.deepcopy(h).body if not (isinstance(st, ast.Expr) and isinstance(st.value, ast.Constant)) and not isinstance(st, ast.Return)]
+        body = _without_early_returns([st for st in copy.deepcopy(h).body if not (isinstance(st, ast.Expr) and isinstance(st.value, ast.Constant))]) or []
         out = [R().visit(st) for st in body] or [ast.Pass()]
+        for st in out:
+            ast.fix_missing_locations(ast.copy_location(st, call) if not hasattr(st, "lineno") else st)
         for st in out:
             for n in ast.walk(st):
                 if hasattr(n, "lineno"):
@@ -941,9 +990,14 @@ def inline_procedures(func_node: ast.FunctionDef, callees: typing.Dict[str, ast.
             for hd in getattr(st, "handlers", []) or []:
                 hd.body = block(hd.body, depth)
             c = st.value if isinstance(st, ast.Expr) else None
-            if isinstance(c, ast.Call) and isinstance(c.func, ast.Name) and c.func.id in callees and c.func.id.startswith("_") and depth < 2 \
-                    and callees[c.func.id] is not func_node and fits(callees[c.func.id], c):
-                out += block(expand(callees[c.func.id], c), depth + 1)
+            h = None
+            if isinstance(c, ast.Call) and isinstance(c.func, ast.Name) and c.func.id in callees and c.func.id.startswith("_"):
+                h = callees[c.func.id]
+            elif isinstance(c, ast.Call) and methods and isinstance(c.func, ast.Attribute) and isinstance(c.func.value, ast.Name) and c.func.value.id in ("self", "cls") \
+                    and c.func.attr in methods and c.func.attr.startswith("_") and not c.func.attr.startswith("__"):
+                h = methods[c.func.attr]
+            if h is not None and depth < 2 and h is not func_node and fits(h, c):
+                out += block(expand(h, c), depth + 1)
             else:
                 out.append(st)
         return out
